@@ -1317,12 +1317,16 @@ class Machine:
                 v = self.eval(args[0], env)
                 if isinstance(v, Vec) and v.name == "initializer list":
                     v = self.rv(v.items[0]) if len(v.items) == 1 else (Fraction(0) if not v.items else v)      # T{x}, T{}
+                if is_int_type(tyn) and isinstance(v, float):
+                    raise AbstractViolation("conversion of %s to the integer type %s" % (v, ty))
                 if is_int_type(tyn) and isinstance(simp(v), Fraction):
                     v = simp(v)
                     return Fraction(int(v)) if v >= 0 else -Fraction(int(-v))
                 return v
             if not args:
                 return Fraction(0)
+        if re.match(r"^(const)?std::(pair|tuple)<", tyn):
+            return Tup([Cell(self.copyval(self.ev(a, env))) for a in args])
         if len(args) == 1:
             v = self.ev(args[0], env)
             # copy / conversion constructor of an unmodelled type: the value itself
@@ -1581,7 +1585,12 @@ class RangeAdaptor:
 # ---------------------------------------------------------------------------------------------------------------
 
 def _pure(f):
-    return PyFunc(lambda M, vals: f(M, *vals))
+    def g(M, vals):
+        try:
+            return f(M, *vals)
+        except (ValueError, TypeError, OverflowError, AttributeError) as ex:
+            raise Unab("library model applied to unexpected values (%s)" % ex)
+    return PyFunc(g)
 
 
 def _minmax(which):
